@@ -2259,7 +2259,7 @@ def distributed_shampoo(
     exponents.extend([1 for _ in range(to_pad)])
     global_stats = GlobalShardedParameterStats(
         jnp.stack(padded_statistics), jnp.stack(padded_preconditioners),
-        jnp.stack(exponents))
+        jnp.asarray(exponents, dtype=jnp.int32))
     return ShampooState(
         count=jnp.zeros([], jnp.int32),
         stats=ShardedShampooStats(global_stats, local_stats))
@@ -2421,7 +2421,7 @@ def distributed_shampoo(
         [statistics_shape, jnp.float32], [preconditioners_shape, jnp.float32],
         [[num_statistics], jnp.int32])
     return ShampooState(  # pytype: disable=wrong-arg-types  # numpy-scalars
-        count=[[], jnp.float32],
+        count=[[], jnp.int32],
         stats=ShardedShampooStats(global_stats, local_stats))
 
   def sharded_update_fn(grads, state, params):
